@@ -570,6 +570,12 @@ with a PING outstanding for a whole interval, it makes the driver reconnect exac
 PING is forgotten. -/
 theorem take_ping_cases (s : Irc) : PingOut s (takeMsg s) := takeMsg_ping s
 
+/-- **A ping time-out discards nothing**: the only thing `takeMsg` ever discards is the (empty) backlog
+at a reconnect for an unanswered PING; a message accepted by `queueMsg`/`sendMsg` is never thrown away
+by a time-out while it waits. -/
+theorem timeout_discards_nothing (s : Irc) : ∀ ms ∈ discs (takeMsg s).2, ms = [] :=
+  takeAux_discards_nothing _ s
+
 /-- a PONG clears the outstanding PING -/
 theorem pong_clears (s : Irc) : (step s .pong).1.outstandingPing = false := rfl
 
